@@ -78,7 +78,9 @@ def gen_readings(rng, n):
     out = []
     for _ in range(n):
         k = rng.random()
-        if k < 0.45:
+        if k < 0.06:
+            d = Fraction(0)          # a coarse clock returns the same reading twice
+        elif k < 0.45:
             d = Fraction(rng.randint(1, 256), 1024)
         elif k < 0.85:
             d = 1 + Fraction(rng.randint(0, 64), 1024)
@@ -353,6 +355,8 @@ def run(ctx):
         ctx.count('limiter_rate_' + ('lt1' if rate < 1 else 'ge1'))
         if res[0] == 'err':
             exp = [1, common.exn_index(res[1])]
+            ctx.violation(f'rate {rate}/s: limit() raised {res[1]!r} (a waiting message is never let through; the sender ends)',
+                          {'function': 'limiter', 'rate': str(rate), 'readings': [str(x) for x in readings]})
         else:
             _k, passes, tok, upd = res
             exp = [0] + passes + [-1, tok.numerator, tok.denominator, upd.numerator, upd.denominator]
@@ -513,6 +517,8 @@ def replay(ctx, path):
         res = run_limiter(rate, 0, readings)
         if res[0] == 'ok':
             msg = oracle_limiter(rate, readings, res[1])
+        else:
+            msg = f'limit() raised {res[1]!r}'
     print('replay:', msg or 'property holds on this input (or nothing to replay)')
     if msg:
         print(f'VIOLATION property=C18 replay={path}')
